@@ -131,7 +131,20 @@ ProgSelfStruct ==
     cz \in { [k |-> "no"] } \cup { [k |-> "co", ty |-> Bare("L"), val |-> v] : v \in { CList(CRef("", "x")), CList(SLit(CRef("", "z"))) } }
                         \cup { [k |-> "co", ty |-> Bare("S"), val |-> SLit(CRef("", "y"))] } }
 
+\* ---- family "xcycle": typedefs that name each other across two (mutually including) files, bare and through lists,
+\*      in two and in three steps.  A cycle that leaves the file and comes back is a cycle; without the include back it is
+\*      an unresolved reference
+ProgXCycle ==
+  { [inc |-> i,
+     ty |-> (Key("a", "X") :> [k |-> "td", tgt |-> x]) @@ (Key("b", "Y") :> [k |-> "td", tgt |-> y]) @@ (Key("b", "Z") :> z),
+     co |-> EmptyCo, sv |-> EmptySv] :
+    i \in { [a |-> {"b"}, b |-> {"a"}], [a |-> {"b"}, b |-> {}], [a |-> {"a", "b"}, b |-> {"a", "b"}] },
+    x \in { Qual("b", "Y"), ListRef("b", "Y"), Qual("b", "Z") },
+    y \in { BaseRef("i32"), Qual("a", "X"), ListRef("a", "X"), Bare("Z"), ListRef("", "Z") },
+    z \in { [k |-> "no"], [k |-> "td", tgt |-> BaseRef("i32")], [k |-> "td", tgt |-> Qual("a", "X")], [k |-> "td", tgt |-> ListRef("a", "X")] } }
+
 Programs == CASE Family = "types"   -> ProgTypes
+              [] Family = "xcycle" -> ProgXCycle
               [] Family = "selfstruct" -> ProgSelfStruct
               [] Family = "lists"   -> ProgLists
               [] Family = "aliasitem" -> ProgAliasItem
